@@ -65,6 +65,7 @@ class FnSpec:
         self.nobody = False
         self.pub = True
         self.split = None
+        self.imported = None   # name of the unit that proves this function (when pulled in by @use)
 
 
 class Unit:
@@ -114,6 +115,26 @@ def parse_unit(path):
             u.files[a] = p
         elif d == "@include":
             u.entries.append(("include", arg))
+        elif d == "@use":
+            sub = parse_unit(os.path.join(VERIF, arg))
+            for a, pth in sub.files.items():
+                if a in u.files and u.files[a] != pth:
+                    raise SystemExit("%s: file alias %s clashes with %s" % (path, a, arg))
+                u.files[a] = pth
+            for s_ in sub.strips:
+                if s_ not in u.strips:
+                    u.strips.append(s_)
+            for e in sub.entries:
+                if e[0] == "fn":
+                    e[1].imported = sub.name
+                    e[1].hints = []
+                    e[1].loops = {}
+                    e[1].closures = {}
+                    e[1].substs = []
+                    e[1].assume_entry = []
+                if e[0] == "include" and e in u.entries:
+                    continue
+                u.entries.append(e)
         elif d == "@strip":
             u.strips.append(arg)
         elif d == "@raw":
@@ -432,12 +453,15 @@ def build_fn(u, fs, log, probe=False):
         log.append({"rule": "assume_entry", "fn": fs.path, "cond": c})
     attrs = "".join("    %s\n" % a for a in fs.attrs)
     spec = ("\n" + fs.spec + "\n") if fs.spec.strip() else "\n"
-    if fs.nobody:
+    if fs.imported:
+        fn_text = "%s    #[verifier::external_body] // proved in unit `%s`\n    %s%s    { unimplemented!() }\n" % (attrs, fs.imported, sig_text, spec)
+        log.append({"rule": "import", "fn": fs.path, "unit": fs.imported})
+    elif fs.nobody:
         fn_text = "%s    #[verifier::external_body]\n    %s%s    { unimplemented!() }\n" % (attrs, sig_text, spec)
         log.append({"rule": "nobody", "fn": fs.path})
     else:
         fn_text = "%s    %s%s    {%s%s%s}\n" % (attrs, sig_text, spec, entry, entry_hints, body)
-        if probe and "ensures" in fs.spec:
+        if probe and "ensures" in fs.spec and not fs.imported:
             # vacuity probe twin: same requires, same body, `ensures false`; must FAIL to verify.
             psig = re.sub(r"\bfn\s+%s\b" % re.escape(name), "fn %s__probe" % name, sig_text, count=1)
             pspec = "\n" + rules.probe_spec(fs.spec) + "\n"
@@ -542,9 +566,12 @@ def assemble(unit_path, probe=False, no_hints=False, extra_requires=None):
                 fs.spec = rules.add_requires(fs.spec, extra_requires[fs.path])
             text, l, _ = build_fn(u, fs, log, probe=probe)
             lost += [(fs.path, a) for a in l]
-            parts.append("// ---- extracted fn %s ----\n" % fs.path)
+            if fs.imported:
+                parts.append("// ---- imported fn %s (unit %s) ----\n" % (fs.path, fs.imported))
+            else:
+                parts.append("// ---- extracted fn %s ----\n" % fs.path)
+                fns.append(fs)
             parts.append(text)
-            fns.append(fs)
     parts.append(FOOTER)
     info = {"unit": u.name, "log": log, "lost_anchors": lost, "fns": fns, "includes": includes,
             "files": dict(u.files)}
